@@ -24,6 +24,7 @@ from .symint import SInt, SBool, EngineError, sint_key, current_ctx
 
 # ------------------------------------------------------------------------------------------------ variables
 VSIZE = {}
+REAL_INPUTS = set()  # names of symbolic inputs with a real dtype: conj is the identity on their entries
 _counter = itertools.count()
 
 
@@ -262,10 +263,34 @@ def func(name, *args):
     return Expr([Term(1, (), [(("F", name, tuple(alpha_normalize(as_expr(a)) for a in args)), 1)])])
 
 
+# ------------------------------------------------------------------------------------------------ index terms
+# An index term is a variable name (str), an int constant, or a gather term ("G", name, idx): the integer value of the
+# symbolic integer input `name` at position idx (used for fancy indexing with symbolic index vectors).
+def i_subst(i, sub):
+    if isinstance(i, str):
+        return sub.get(i, i)
+    if isinstance(i, tuple) and i and i[0] == "G":
+        return ("G", i[1], tuple(i_subst(j, sub) for j in i[2]))
+    return i
+
+
+def i_vars(i):
+    if isinstance(i, str):
+        return {i}
+    if isinstance(i, tuple) and i and i[0] == "G":
+        s = set()
+        for j in i[2]:
+            s |= i_vars(j)
+        return s
+    return set()
+
+
 # ------------------------------------------------------------------------------------------------ atom utilities
 def a_conj(a):
     k = a[0]
     if k == "E":
+        if a[1] in REAL_INPUTS:
+            return a
         return ("E", a[1], a[2], not a[3])
     if k == "P":
         return ("P", a[1].conj())
@@ -279,7 +304,7 @@ def a_conj(a):
 def a_subst(a, sub):
     k = a[0]
     if k == "E":
-        return ("E", a[1], tuple(sub.get(i, i) if isinstance(i, str) else i for i in a[2]), a[3])
+        return ("E", a[1], tuple(i_subst(i, sub) for i in a[2]), a[3])
     if k == "D":
         x = sub.get(a[1], a[1]) if isinstance(a[1], str) else a[1]
         y = sub.get(a[2], a[2]) if isinstance(a[2], str) else a[2]
@@ -299,7 +324,10 @@ def a_subst(a, sub):
 def a_vars(a):
     k = a[0]
     if k == "E":
-        return {i for i in a[2] if isinstance(i, str)}
+        s = set()
+        for i in a[2]:
+            s |= i_vars(i)
+        return s
     if k == "D":
         return {i for i in a[1:3] if isinstance(i, str)}
     if k == "I":
@@ -374,9 +402,7 @@ def _is_sum_of_squares(expr):
                 return False
             if e.denominator == 1 and e % 2 == 0:
                 continue
-            if a[0] == "E" and d.get(a_conj(a)) == e and a[3] is False:
-                continue
-            if a[0] == "E" and a[3] is True and d.get(a_conj(a)) == e:
+            if a[0] == "E" and a_conj(a) != a and d.get(a_conj(a)) == e:
                 continue
             return False
     return True
@@ -428,6 +454,18 @@ def simplify_term(t):
             if ne != e:
                 rest = Term(t.coef, t.bound, facs[:i] + facs[i + 1:] + [(a, ne)])
                 return simplify_term(rest)
+    # bound variables of small concrete size are expanded (so that sum_j delta(s,j) f(j) == f(s))
+    for v in t.bound:
+        n = VSIZE[v]
+        if not isinstance(n, SInt) or n.is_const():
+            n = int(n)
+            if n <= MAX_EXPAND:
+                rest = [b for b in t.bound if b != v]
+                out = []
+                for val in range(n):
+                    u = Term(t.coef, rest, [(a_subst(a, {v: val}), e) for a, e in t.facs])
+                    out.extend(simplify_term(u))
+                return out
     coef = t.coef
     bound = list(t.bound)
     facs = dict(t.facs)
@@ -537,6 +575,8 @@ def _not(sb):
 def _idx_key(i, ren):
     if isinstance(i, str):
         return ren.get(i, "$" + i)
+    if isinstance(i, tuple) and i and i[0] == "G":
+        return ("G", i[1], tuple(_idx_key(j, ren) for j in i[2]))
     return i
 
 
@@ -583,6 +623,7 @@ def atom_key_masked(a, ren):
 
 
 MAX_PERMS = 40320
+MAX_EXPAND = 8
 
 
 def term_key(t, ren, depth, want_ren=False):
